@@ -26,14 +26,27 @@ type symCopy struct {
 	srcIsZero bool
 }
 
-// SymStr is a symbolic string: element Idx of a concrete table of distinct strings.
+// SymStr is a symbolic string: either element Idx of a concrete table of
+// distinct strings, or (Bytes != nil) a string of concrete length whose bytes
+// are terms (string(b) of a buffer with symbolic contents, e.g. a map key).
 type SymStr struct {
 	Table []string
 	Idx   *Term // 64-bit, assumed < len(Table)
 	index map[string]int
+	Bytes []*Term
 }
 
 func (ex *Exec) symStrEq(s *SymStr, c string) *Term {
+	if s.Bytes != nil || (s.Table == nil && s.Idx == nil) {
+		if len(s.Bytes) != len(c) {
+			return ex.C.False()
+		}
+		r := ex.C.True()
+		for i := range s.Bytes {
+			r = ex.C.And(r, ex.C.Eq(s.Bytes[i], ex.C.Const(BV(8), uint64(c[i]))))
+		}
+		return r
+	}
 	if s.index == nil {
 		s.index = map[string]int{}
 		for i, w := range s.Table {
@@ -47,6 +60,12 @@ func (ex *Exec) symStrEq(s *SymStr, c string) *Term {
 }
 
 func (ex *Exec) symStrEq2(a, b *SymStr) *Term {
+	if a.Table == nil && b.Table == nil {
+		if len(a.Bytes) != len(b.Bytes) {
+			return ex.C.False()
+		}
+		return ex.eqBytes(a.Bytes, b.Bytes)
+	}
 	if len(a.Table) > 0 && len(b.Table) > 0 && &a.Table[0] == &b.Table[0] && len(a.Table) == len(b.Table) {
 		return ex.C.Eq(a.Idx, b.Idx)
 	}
